@@ -1150,16 +1150,29 @@ def run_c16(desc, R, rng):
                 continue
             n = ref["n"]
             R.max("t2t_c16_sequence_length", n)
+            # SECTOR SELECT packet 1, packet 2 and the command that follows are always enumerated
+            sector_pos = set()
+            for i in ref["packet1"] | ref["single_shot"]:
+                sector_pos.update(x for x in (i, i + 1) if x < n)
+            if sector_pos:
+                R.count("t2t_c16_sector1_ops")
+                R.seen("t2t_c16_sector_ops", "%s/%s: packet 2 at %s" % (kind, op, sorted(ref["single_shot"])))
             if desc["all_positions"] or n <= 20:
                 positions = list(range(n))
             else:
-                positions = sorted(set(list(range(6)) + list(range(n - 6, n)) + [rng.randrange(n) for _ in range(8)]))
+                positions = sorted(set(list(range(6)) + list(range(n - 6, n)) + [rng.randrange(n) for _ in range(8)])
+                                   | sector_pos)
             for p in positions:
                 for err in sorted(C16_KINDS):
                     for b in (1, 2, 3, 4):
                         for flavour in ("cmd_lost", "rsp_lost"):
                             case = dict(base)
                             case.update({"p": p, "b": b, "err": err, "flavour": flavour})
+                            _c16_fault_run(case, ref, R)
+                        if p in ref["single_shot"]:
+                            # second reading of "command lost": the frame reached the tag damaged
+                            case = dict(base)
+                            case.update({"p": p, "b": b, "err": err, "flavour": "cmd_lost", "lost": "damaged"})
                             _c16_fault_run(case, ref, R)
 
 
@@ -1189,7 +1202,7 @@ def _c16_execute(case, script_factory):
     dev = SimTagDevice(model)
     dev.command_bound = COMMAND_BOUND
     clf = frontend(dev)
-    box = {"start": 0}
+    box = {"start": 0, "model": model}
     if op == "activate":
         dev.script = script_factory(box)
         target = clf.sense(nfc.clf.RemoteTarget("106A"))
@@ -1239,6 +1252,24 @@ def _c16_execute(case, script_factory):
                 return tag.signature
             if op == "dump":
                 return tag.dump()
+            if op == "sector_read":
+                # explicit reads in sector 0, sector 1 and sector 0 again
+                a = tag.read(4)
+                s1 = tag.sector_select(1)
+                b1 = tag.read(0x10)
+                b2 = tag.read(0x20)
+                s0 = tag.sector_select(0)
+                c = tag.read(8)
+                return [a, s1, b1, b2, s0, c]
+            if op == "sector_write":
+                tag.write(6, b"\x11\x22\x33\x44")
+                tag.sector_select(1)
+                tag.write(0x12, b"\x55\x66\x77\x88")
+                r1 = tag.read(0x12)
+                tag.sector_select(0)
+                tag.write(7, b"\x99\xAA\xBB\xCC")
+                r0 = tag.read(6)
+                return [r1, r0]
             raise AssertionError("unknown op " + op)
         box["start"] = dev.n_commands
         dev.script = script_factory(box)
@@ -1252,7 +1283,7 @@ def _c16_execute(case, script_factory):
             outcome = ["exc", "TagCommandError", v.errno, type(v).__name__]
         else:
             outcome = ["exc", type(v).__name__, None, exc_sig(v), exc_text(v)]
-    return {"outcome": outcome, "log": dev.log[log0:], "mem": bytes(model.mem), "dev": dev}
+    return {"outcome": outcome, "log": dev.log[log0:], "mem": bytes(model.mem), "dev": dev, "box": box}
 
 
 def _answered(log):
@@ -1287,22 +1318,37 @@ def _c16_reference(case, R):
         if i > 0 and len(cmd) == 4 and ref["log"][i - 1][1] == b"\xC2\xFF" and ref["log"][i - 1][2] == b"\x0A":
             single.add(i)
     ref["single_shot"] = single
+    ref["packet1"] = set(i - 1 for i in single)
     ref["answered"] = _answered(ref["log"])
     R.seen("t2t_c16_operations", "%s/%s" % (case["kind"], case["op"]))
     return ref
 
 
+def _nviol(R):
+    return sum(v["count"] for v in R.violations.values())
+
+
 def _c16_fault_run(case, ref, R):
+    """one cell: the existing clauses first (most specific signature wins); a cell that passed them and returned
+    normally is then judged by the always-on clause 'no silently wrong result / memory' (_c16_silent)"""
     import nfc.clf
     p, b, flavour = case["p"], case["b"], case["flavour"]
     ename, errno = C16_KINDS[case["err"]]
     exc = getattr(nfc.clf, ename)
     op = case["op"]
+    damaged = case.get("lost") == "damaged" and flavour == "cmd_lost"
 
     def factory(box):
         def script(n, data):
             rel = n - box["start"]
+            m = box["model"]
+            if "sector_at_loss" in box and "sector_after_loss" not in box:
+                box["sector_after_loss"] = m.sector          # what the tag has selected when the next command arrives
             if p <= rel < p + b:
+                if rel == p and p in ref["single_shot"] and flavour == "cmd_lost":
+                    box["sector_at_loss"] = m.sector
+                if damaged:
+                    m.frame_error()     # the tag saw a frame it could not decode
                 return (flavour, exc)
             return None
         return script
@@ -1311,10 +1357,118 @@ def _c16_fault_run(case, ref, R):
         R.inconc("t2t c16: harness failure in %s/%s: %r" % (case["kind"], op, run))
         return
     R.count("t2t_c16_cells")
-    R.case([case["kind"], op, p, b, case["err"], flavour])
+    R.case([case["kind"], op, p, b, case["err"], flavour, case.get("lost", "unseen")])
+    if p in ref["packet1"]:
+        R.count("t2t_c16_sector_select_p1_cells")
+    if p in ref["single_shot"]:
+        R.count("t2t_c16_sector_select_p2_cells")
+        R.seen("t2t_c16_sector_select_p2_faults", "%s/%s/%s" % (case["err"], flavour, case.get("lost", "unseen")))
+        box = run["box"]
+        if "sector_at_loss" in box:
+            # the simulated tag really is still in the old sector after a lost packet 2
+            if "sector_after_loss" not in box:
+                box["sector_after_loss"] = box["model"].sector
+            if box["sector_after_loss"] == box["sector_at_loss"]:
+                R.count("t2t_c16_p2_lost_tag_stayed_in_sector")
+            else:
+                R.inconc("t2t c16: the tag model changed its sector although SECTOR SELECT packet 2 was lost")
+                return
+    cell = "%s at command %d (%s) of %s/%s, burst %d, %s%s" % (
+        ename, p, ref["log"][p][1][:2].hex() if p < len(ref["log"]) else "?", case["kind"], op, b, flavour,
+        " (damaged frame)" if damaged else "")
+    nv = _nviol(R)
+    _c16_judge(case, ref, run, R, cell)
+    if _nviol(R) == nv:
+        _c16_silent(case, ref, run, R, cell)
+
+
+def _c16_failure_value(op, v):
+    """the documented way of `op` to report failure without raising (normalised value)"""
+    if op == "ndef_read":
+        return v is None
+    if op == "has_changed":                 # [ndef.has_changed, tag.ndef is None]: unreadable data reads as "changed"
+        return isinstance(v, list) and len(v) == 2 and v[0] is True
+    if op in ("is_present", "format", "format_wipe", "format_blank", "protect", "protect_pw", "authenticate"):
+        return v is False
+    if op == "signature":
+        return v == ["bytes", "00" * 32]
+    return False
+
+
+def _c16_dump_mark(line):
+    """a page printed as unreadable (hex column of pagedump; the 4 character text column cannot hold this string)"""
+    return isinstance(line, str) and "?? ?? ?? ??" in line
+
+
+def _c16_dump_verdict(got, want):
+    """dump() is documented to run 'until an error response is received': pages it could not read are printed as
+    '??', a dump cut short ends with at most two closing lines ('*' line and last page of a run of equal pages) that
+    the complete dump prints differently.  Every other line must be a line of the fault-free dump.
+    -> None (the dump reports the error) | signature suffix of the violated clause"""
+    if not isinstance(got, list) or not isinstance(want, list):
+        return "dump"
+    want_set = set(x for x in want if isinstance(x, str))
+    marks = [i for i, x in enumerate(got) if _c16_dump_mark(x)]
+    foreign = [i for i, x in enumerate(got) if not (_c16_dump_mark(x) or x in want_set)]
+    if len(foreign) > 2:
+        # pages printed with contents the fault-free dump does not show for them.  Two mechanisms are kept apart:
+        # no page is marked unreadable at all / wrong lines follow a page that was marked unreadable
+        return "dump/lines-after-error-mark" if marks and marks[0] < foreign[0] else "dump"
+    if not marks and len(got) >= len(want):
+        return "dump"
+    return None
+
+
+def _c16_silent(case, ref, run, R, cell):
+    """always-on clause (every position, every burst, single-shot commands included): an operation that returns
+    normally returns the fault-free result or its documented failure value; with the fault-free result the final tag
+    memory equals the fault-free memory.  Anything else hands wrong data to the application without any error."""
+    out, rout, op = run["outcome"], ref["outcome"], case["op"]
+    if out[0] != "ret" or rout[0] != "ret" or op == "activate":
+        return
+    if case["p"] in ref["single_shot"] and case["err"] == "timeout" and (
+            (case["flavour"] == "cmd_lost" and case.get("lost") == "damaged") or
+            (case["flavour"] == "rsp_lost" and isinstance(ref["log"][case["p"]][2], bytes))):
+        # silence after packet 2 *is* the acknowledge: when the tag did not take the packet (damaged frame) or its
+        # NAK ("no such sector") is lost, the reader observes exactly a successful select; no implementation can
+        # detect that
+        R.count("t2t_c16_passive_ack_loss_undetectable")
+        return
+    R.count("t2t_c16_normal_returns_judged")
+    v, rv = out[1], rout[1]
+    if v != rv:
+        if op == "dump":
+            sfx = _c16_dump_verdict(v, rv)
+            if sfx is None:
+                R.count("t2t_c16_normal_return_reports_failure")
+            else:
+                bad = [x for x in v if not (_c16_dump_mark(x) or x in set(rv))]
+                R.violation("t2t/c16/silent-wrong-result/" + sfx,
+                            cell + ": %d lines of the dump show page contents the fault-free dump does not have, e.g. %r"
+                            % (len(bad), bad[-1] if bad else None), case)
+        elif _c16_failure_value(op, v):
+            R.count("t2t_c16_normal_return_reports_failure")
+        else:
+            R.violation("t2t/c16/silent-wrong-result/%s" % op,
+                        cell + ": returned %r without any error, fault-free result %r" % (str(v)[:70], str(rv)[:70]), case)
+        return
+    if _c16_failure_value(op, v):
+        R.count("t2t_c16_normal_return_reference_is_failure_value")     # cannot tell failure from success
+        return
+    if run["mem"] != ref["mem"]:
+        diff = [i for i in range(min(len(run["mem"]), len(ref["mem"]))) if run["mem"][i] != ref["mem"][i]]
+        R.violation("t2t/c16/silent-wrong-memory/%s" % op,
+                    cell + ": returned the fault-free result but %d bytes of the tag memory differ (first at %d)" % (
+                        len(diff), diff[0] if diff else -1), case)
+        return
+    R.count("t2t_c16_normal_return_same_result_same_memory")
+
+
+def _c16_judge(case, ref, run, R, cell):
+    p, b, flavour = case["p"], case["b"], case["flavour"]
+    ename, errno = C16_KINDS[case["err"]]
+    op = case["op"]
     out = run["outcome"]
-    cell = "%s at command %d (%s) of %s/%s, burst %d, %s" % (
-        ename, p, ref["log"][p][1][:2].hex() if p < len(ref["log"]) else "?", case["kind"], op, b, flavour)
     # clause: no foreign exception, ever
     if out[0] == "exc" and out[1] != "TagCommandError":
         R.violation("t2t/c16/escape/%s/%s" % (op, out[3]), cell + ": " + out[4], case)
